@@ -14,6 +14,10 @@ CONSTANTS
   Fall = 1
   MaxRounds = 2
   MaxConns = 2
+  NoMonitor = FALSE
+  MaxRefuse = 0
+  MaxClose = 0
+  FailedDialLeaks = FALSE
   MaxHalf = 1
   WatcherLeaves = {}
   MaxToggles = 1
